@@ -69,6 +69,10 @@ def keys_e2e(case, comps):
                 keys.append("e2e-request-target-changed")
         elif c == "X-Forwarded-For" and len(sent_values(q, "X-Forwarded-For")) > 1:
             keys.append("e2e-x-forwarded-for-later-field-lines-dropped")
+        elif c == "User-Agent" and len(sent_values(q, "User-Agent")) > 1:
+            keys.append("e2e-user-agent-later-field-lines-dropped")
+        elif c == "Accept-Encoding" and sent_values(q, "Accept-Encoding")[:1] == [""]:
+            keys.append("e2e-gzip-added-to-empty-accept-encoding")
         elif c == "Cache-Control" and not sent_values(q, "Cache-Control") and \
                 [v.lower() for v in sent_values(q, "Pragma")][:1] == ["no-cache"]:
             keys.append("e2e-cache-control-added-for-pragma-no-cache")
